@@ -49,6 +49,8 @@ type fnCtx struct {
 	factSeen map[string]bool
 	modCache map[string][]*modItem
 	modWhole map[string]bool
+	coveredLoop map[int]bool
+	coveredRet bool
 }
 
 type modItem struct {
@@ -76,7 +78,7 @@ func (E *Engine) VerifyFunc(key string, props []string) (err error) {
 	}
 	c := &fnCtx{key: key, short: E.shortName(fn), fn: fn, spec: spec, props: map[string]bool{}, loopOf: map[*ssa.BasicBlock]*loopInfo{},
 		compSort: map[string]string{}, touched: map[string]bool{}, params: map[string]*Val{}, ordinals: map[ssa.Instruction]int{},
-		cellOf: map[*ssa.Alloc]*Cell{}, freeVars: map[*ssa.FreeVar]*Val{}, compPtr: map[string]bool{}, factSeen: map[string]bool{}}
+		cellOf: map[*ssa.Alloc]*Cell{}, freeVars: map[*ssa.FreeVar]*Val{}, compPtr: map[string]bool{}, factSeen: map[string]bool{}, coveredLoop: map[int]bool{}}
 	for _, p := range props {
 		c.props[p] = true
 	}
@@ -104,6 +106,7 @@ func (E *Engine) VerifyFunc(key string, props []string) (err error) {
 		E.verifyRelational(c)
 	}
 	st := E.entryState(c, "")
+	E.cover(st, "entry", "requires and type invariants are satisfiable", "")
 	E.runBlock(st, fn.Blocks[0], nil)
 	if c.paths == 0 {
 		return fmt.Errorf("%s: no complete path", c.short)
@@ -461,6 +464,10 @@ func (E *Engine) loopEnter(st *State, li *loopInfo, from *ssa.BasicBlock) bool {
 		st.variantAt[li.Header] = ev.eval(li.Spec.Decr.Expr).S
 	}
 	st.inLoop[li.Header] = true
+	if !c.coveredLoop[li.Ordinal] {
+		c.coveredLoop[li.Ordinal] = true
+		E.cover(st, fmt.Sprintf("loop%d", li.Ordinal), "loop invariants are satisfiable at the loop head", E.blockPos(li.Header))
+	}
 	return true
 }
 
